@@ -21,7 +21,8 @@ RULE = ("A real transit Connection pair (owners: real TransitSender/TransitRecei
         "replay an earlier one, inject a random frame, replay a frame from the other direction, truncate "
         "mid-record and close. Oracle: per direction the delivered records (or consumer bytes) are at every step "
         "a prefix of what was sent, up to the first manipulated record exclusive; without manipulation equality "
-        "at the end; after a complete manipulated frame the receiver's transport was told to close and nothing "
+        "at the end and the connection still up (also across idle pauses of 61 s, and with the sender's 'go' "
+        "coalesced with its first records); after a complete manipulated frame the receiver's transport was told to close and nothing "
         "later is surfaced; when the stream ends every outstanding receive_record()/consumer Deferred has failed. "
         "Non-trivial = >=2 records with one split across chunks, or a manipulation that reached the receiver. "
         "Distinct = (features, size/chunk/op trace).")
@@ -47,6 +48,10 @@ def cases(draw, tier="quick"):
         c["ops"] = []
     c["victim"] = draw(st.integers(0, 1))      # which end RECEIVES the manipulated stream (0=sender side)
     c["hparam"] = draw(st.integers(0, 2 ** 24))
+    # the sender's "go" is still in flight when it starts sending records, so TCP may coalesce the two
+    c["hold_go"] = draw(st.integers(0, 2)) == 0
+    # pauses of 61 simulated seconds (longer than the negotiation timeout) at tape-chosen points
+    c["idle"] = draw(st.sampled_from([0, 0, 0, 1, 2]))
     n = draw(st.integers(0, 200))
     c["tape"] = draw(st.binary(min_size=n, max_size=n))
     return c
@@ -118,7 +123,7 @@ def payload(i, k, n):
     return bytes([(i * 131 + k * 7 + 1) % 256]) * n
 
 
-def establish():
+def establish(hold_go=False):
     from wormhole import transit
     from twisted.internet.task import Clock
     key = b"\x07" * 32
@@ -139,17 +144,26 @@ def establish():
     res = [[], []]
     ds[0].addBoth(res[0].append)
     ds[1].addBoth(res[1].append)
+    held = []
     for _ in range(20):
         moved = False
         for i in range(2):
             c, t = ends[i]
             while t.chunks:
                 moved = True
-                ends[1 - i][0].dataReceived(t.chunks.pop(0))
+                ch = t.chunks.pop(0)
+                if hold_go and i == 0 and ch == b"go\n":
+                    held.append(ch)          # stays in flight: the caller delivers it with the record stream
+                    continue
+                ends[1 - i][0].dataReceived(ch)
         if not moved:
             break
-    ok = all(x and x[0] is ends[i][0] for i, x in enumerate(res)) and all(e[0].state == "records" for e in ends)
-    return ends, ok, clock
+    if held:
+        ok = bool(res[0]) and res[0][0] is ends[0][0] and ends[0][0].state == "records" and not res[1]
+    else:
+        ok = all(x and x[0] is ends[i][0] for i, x in enumerate(res)) and all(e[0].state == "records" for e in ends)
+    ends[1].append(res[1])
+    return ends, ok, clock, b"".join(held)
 
 
 def run_case(c):
@@ -157,7 +171,7 @@ def run_case(c):
     from twisted.internet import error
     res = CaseResult()
     tape = Tape(c["tape"])
-    ends, ok, clock = establish()
+    ends, ok, clock, held_go = establish(bool(c.get("hold_go")))
     if not ok:
         res.violate("setup", "honest handshake over pipes did not reach 'records': %r" % [e[0].state for e in ends],
                     input_class="handshake-failed")
@@ -207,12 +221,22 @@ def run_case(c):
         d.addCallbacks(lambda r, entry=entry: (entry.__setitem__("result", ("ok", r)), got[1 - e].append(r)) and None,
                        lambda f, entry=entry: entry.__setitem__("result", ("err", f.value)) and None)
 
-    # receive-mode setup for each receiving end e (receives direction 1-e)
-    try:
-        _setup_modes(c, conns, pending, total, sinks, cons_d, issue_read, FC)
-    except Exception as ex:
-        res.violate("api", "receive-mode setup (%r) raised %r" % (c["mode"], ex),
-                    input_class="consumer-setup-raises:%s" % type(ex).__name__, exc=type(ex).__name__)
+    # receive-mode setup for each receiving end e (receives direction 1-e); an end whose negotiation has
+    # not finished (the "go" is still in flight) is set up the moment its connect() result fires
+    ready = [True, not held_go]
+    nego_result = ends[1][2]
+    if held_go:
+        frames[0].append([held_go, -1, "genuine"])
+
+    def setup(only):
+        try:
+            _setup_modes(c, conns, pending, total, sinks, cons_d, issue_read, FC, only=only)
+        except Exception as ex:
+            res.violate("api", "receive-mode setup (%r) raised %r" % (c["mode"], ex),
+                        input_class="consumer-setup-raises:%s" % type(ex).__name__, exc=type(ex).__name__)
+            return False
+        return True
+    if not setup([e for e in range(2) if ready[e]]):
         return res
     for e in range(0):
         mode = c["mode"][e]
@@ -249,6 +273,8 @@ def run_case(c):
         op = ops[0]
         q = frames[d]
         lo = 1 if part[d] else 0          # frames entirely undelivered start here
+        if q and q[0][1] == -1:
+            lo = 1                        # the in-flight "go" is not a record; it is never manipulated
         whole = q[lo:]
         hp = c["hparam"] + 7919 * len(applied)      # a second operation must not undo the first
         done = False
@@ -354,8 +380,13 @@ def run_case(c):
             # Twisted logs the exception and drops the connection
             dropped_exc[e] = ex
             pipes[e].lose += 1
+        if not ready[e] and nego_result and nego_result[0] is conns[e]:
+            ready[e] = True
+            setup([e])
 
     CH = [1, 1, 2, 3, 4, 5, 23, 24, 25, 28, 44, 100, 70000, None, None]
+    idle_left = [int(c.get("idle") or 0)]
+    idles = [0]
     for step in range(6000):
         for d in range(2):
             collect(d)
@@ -363,17 +394,24 @@ def run_case(c):
         for d in range(2):
             if frames[d] and not pipes[1 - d].lose:
                 choices += ["deliver%d" % d] * 3
-            if pending[d] and not pipes[d].lose and not stream_ended[d]:
+            if pending[d] and not pipes[d].lose and not stream_ended[d] and ready[d]:
                 choices += ["send%d" % d] * 2
         for e in range(2):
-            if c["mode"][e] in ("read-late", "read-mixed") and len(reads[e]) < len(c["recs"][1 - e]) + 1:
+            if c["mode"][e] in ("read-late", "read-mixed") and len(reads[e]) < len(c["recs"][1 - e]) + 1 and ready[e]:
                 choices.append("read%d" % e)
+        if idle_left[0] > 0 and choices and all(ready):      # (a negotiation may legitimately time out)
+            choices.append("idle")
         d_v = 1 - victim
         if ops and (frames[d_v] or history[d_v]) and not pipes[victim].lose:
             choices.append("op")
         if not choices:
             break
         ch = choices[tape.below(len(choices))]
+        if ch == "idle":
+            idle_left[0] -= 1
+            idles[0] += 1
+            clock.advance(61.0)
+            continue
         if ch == "op":
             if not apply_op(d_v):
                 if not frames[d_v] and not pending[d_v]:
@@ -400,7 +438,7 @@ def run_case(c):
     # flush: send and deliver everything that is left, no more manipulation
     for _ in range(400):
         for d in range(2):
-            while pending[d] and not pipes[d].lose and not stream_ended[d]:
+            while pending[d] and not pipes[d].lose and not stream_ended[d] and ready[d]:
                 rec = pending[d].pop(0)
                 conns[d].send_record(rec)
                 sent[d].append(rec)
@@ -412,7 +450,7 @@ def run_case(c):
                 deliver(d, None)
     for e in range(2):
         if c["mode"][e] in ("read-late", "read-mixed"):
-            while len(reads[e]) < len(c["recs"][1 - e]) + 1 and not pipes[e].lose:
+            while len(reads[e]) < len(c["recs"][1 - e]) + 1 and not pipes[e].lose and ready[e]:
                 issue_read(e)
     check_prefix(res, c, sent, got, sinks, first_affected, errs)
     # hung-up clause
@@ -422,6 +460,18 @@ def run_case(c):
             res.violate("drop", "direction %d: a complete manipulated frame (%s) was received but the receiver did "
                         "not close its transport (state %r)" % (d, applied, conns[e].state),
                         input_class="not-dropped-after:%s" % "+".join(applied))
+    # an honest, established connection is never dropped by the code itself: nothing was manipulated, the
+    # stream was not cut, yet an end told its transport to close (e.g. after an idle pause)
+    if not applied and not any(stream_ended) and any(p.lose for p in pipes) and not dropped_exc[0] and not dropped_exc[1]:
+        res.violate("roundtrip", "no manipulation and no cut, but end(s) %r closed the connection after %d of %d / %d of "
+                    "%d records (idle pauses of 61 s: %d)" % ([e for e in range(2) if pipes[e].lose], len(got[0]),
+                                                              len(sent[0]), len(got[1]), len(sent[1]), idles[0]),
+                    input_class="honest-connection-dropped")
+    for e in range(2):
+        if not applied and dropped_exc[e] is not None:
+            res.violate("roundtrip", "no manipulation, but dataReceived at end %d raised %r" % (e, dropped_exc[e]),
+                        input_class="honest-stream-raises:%s" % type(dropped_exc[e]).__name__,
+                        exc=type(dropped_exc[e]).__name__)
     # end of stream: TCP reports the loss to both ends
     any_drop = any(p.lose for p in pipes) or any(stream_ended)
     if any_drop:
@@ -448,6 +498,11 @@ def run_case(c):
             mode = c["mode"][e]
             if first_affected[d] is not None:
                 continue
+            if not ready[e]:
+                res.violate("roundtrip", "end %d: the whole honest stream (handshake, go, %d records) was delivered but "
+                            "its negotiation never completed (state %r)" % (e, len(sent[d]), conns[e].state),
+                            input_class="negotiation-never-completed")
+                continue
             if mode.startswith("read"):
                 if got[d] != sent[d]:
                     res.violate("roundtrip", "direction %d: %d of %d records surfaced (%s vs %s)" % (
@@ -470,7 +525,8 @@ def run_case(c):
     nrec = max(len(sent[0]), len(sent[1]))
     res.nontrivial = (nrec >= 2 and split[0] >= 1) or reached
     res.features = dict(ops="+".join(applied) or "-", m0=c["mode"][0], m1=c["mode"][1], nrec=common.bucket(nrec, [0, 1, 2, 6, 17]),
-                        split=common.bucket(split[0], [0, 1, 5]), dropped=bool(any_drop))
+                        split=common.bucket(split[0], [0, 1, 5]), dropped=bool(any_drop), late_go=bool(held_go),
+                        idles=idles[0])
     res.trace = "%r|%r|%d" % (c["recs"], applied, split[0])
     res.steps = step
     res.sample = dict(recs=c["recs"], modes=c["mode"], ops_applied=applied, first_affected=first_affected,
@@ -478,12 +534,12 @@ def run_case(c):
     return res
 
 
-def _setup_modes(c, conns, pending, total, sinks, cons_d, issue_read, FC):
-    for e in range(2):
+def _setup_modes(c, conns, pending, total, sinks, cons_d, issue_read, FC, only=(0, 1)):
+    for e in only:
         mode = c["mode"][e]
         d_in = 1 - e
         if mode == "read-early":
-            for _ in range(len(pending[d_in]) + 1):
+            for _ in range(len(c["recs"][d_in]) + 1):
                 issue_read(e)
         elif mode == "consumer":
             sinks[e] = FC(e)
@@ -514,6 +570,8 @@ def check_prefix(res, c, sent, got, sinks, first_affected, errs):
                     d, common.short(g), common.short(sent[d]), first_affected[d]),
                     input_class="surfaced-not-prefix" if g != sent[d][:len(g)] else "surfaced-at-or-after-manipulation")
         else:
+            if sinks[e] is None:
+                continue        # this end's negotiation has not finished yet: nothing can have been surfaced
             have = b"".join(sinks[e].data) if mode == "consumer" else bytes(sinks[e].data)
             want = b"".join(sent[d][:limit])
             if mode.startswith("tofile"):
